@@ -298,8 +298,20 @@ func loopPos(b *ssa.BasicBlock) token.Pos {
 	// use the minimal valid position among the instructions of the header
 	var best token.Pos
 	for _, in := range b.Instrs {
+		// phis carry the position of the variable's declaration, which for a variable shared
+		// with an enclosing loop lies before that loop's own condition
+		if _, isPhi := in.(*ssa.Phi); isPhi {
+			continue
+		}
 		if p := in.Pos(); p.IsValid() && (best == 0 || p < best) {
 			best = p
+		}
+	}
+	if best == 0 {
+		for _, in := range b.Instrs {
+			if p := in.Pos(); p.IsValid() && (best == 0 || p < best) {
+				best = p
+			}
 		}
 	}
 	if best == 0 {
@@ -658,7 +670,13 @@ func (vc *FnVC) elabModItem(env *Env, item string) (out []modItem, err error) {
 		return []modItem{{text: item, kind: "range", ref: fmt.Sprintf("(s.arr %s)", t.S), elem: st.Elem(), comp: c,
 			lo: fmt.Sprintf("(+ (s.off %s) %s)", t.S, lo), hi: fmt.Sprintf("(+ (s.off %s) %s)", t.S, hi)}}, nil
 	case *SSel:
-		base := env.elab(x.X)
+		var base Term
+		if inner, isSel := x.X.(*SSel); isSel {
+			// field of an embedded struct: the embedded object's reference
+			base = env.elabSel(inner, true)
+		} else {
+			base = env.elab(x.X)
+		}
 		bt := base.T
 		if bt == nil {
 			return nil, fmt.Errorf("typeless base")
